@@ -575,6 +575,17 @@ func (c14Engine) Gen(r *core.Rand, tier string, i int) any {
 	for k := 0; k < n; k++ {
 		sc.Runs = append(sc.Runs, c14GenRun(r, sc.ResetVars, sc.ResetRand, children))
 	}
+	if !sc.ResetVars && r.Chance(1, 6) {
+		// Without ResetVars: every run of the history assigns the same separator variable through
+		// Vars (so nothing differs by carry-over), sometimes a regex that does not compile - the
+		// run is rejected, on a reused Interpreter exactly as on a new one, also when the same
+		// invalid value was rejected in the run before
+		name := core.Pick(r, []string{"FS", "RS"})
+		bad := core.Pick(r, []string{"a(b", "x[y", "(", "b+)"})
+		for k := range sc.Runs {
+			sc.Runs[k].ExtraVars = []string{name, core.Pick(r, []string{"a+", ";;*", bad, bad})}
+		}
+	}
 	return sc
 }
 
@@ -731,7 +742,7 @@ func (c14Engine) Shrink(scAny any) []any {
 			{run.CSVComment != "", func(r *c14Run) { r.CSVComment = "" }},
 			{run.OutputMode != "", func(r *c14Run) { r.OutputMode = "" }}, {run.CSVSep != "", func(r *c14Run) { r.CSVSep = "" }},
 			{len(run.Args) > 0, func(r *c14Run) { r.Args = nil }}, {len(run.Environ) > 0, func(r *c14Run) { r.Environ = nil }},
-			{len(run.ExtraVars) > 0, func(r *c14Run) { r.ExtraVars = nil }}, {run.Depth > 0, func(r *c14Run) { r.Depth = 0 }},
+			{len(run.ExtraVars) > 0 && sc.ResetVars, func(r *c14Run) { r.ExtraVars = nil }}, {run.Depth > 0, func(r *c14Run) { r.Depth = 0 }},
 			{run.StdinD.HasErr, func(r *c14Run) { r.StdinD.HasErr = false }}, {len(run.StdinD.Chunks) > 0, func(r *c14Run) { r.StdinD.Chunks = nil }},
 			{len(run.Stdin) > 0, func(r *c14Run) { r.Stdin = nil }},
 			{run.StdinD.EOFWithData, func(r *c14Run) { r.StdinD.EOFWithData = false }},
